@@ -144,7 +144,7 @@ def check(run, replay):
         outs = model_alias(model, [p[0] for p in progs])
         pairs = []
         bad_types, bad_gpp = [], []
-        for (items, decls), o in zip(progs, outs):
+        for (items, decls, ainfo), o in zip(progs, outs):
             if len(o) != 4:
                 run.count("alias:types", None, bucket="model rejects: %s" % (o[0] if o else "?"))
                 bad_types.append((items, o, "model rejected a program the generator considers well-formed"))
@@ -168,8 +168,8 @@ def check(run, replay):
             def has_pa(t):
                 return (t[0] == "p" and (t[1][0] == "a" or has_pa(t[1]))) or (t[0] == "a" and has_pa(t[2]))
             pairs.append(dict(p=(ptext, pbase), x=(xtext, xbase), first_use=len(decls) + 1, decls=decls,
-                              cls="fnptr-alias" if any(has_fn(t) for x, t in decls) else
-                              "ptr-to-array-alias" if any(has_pa(t) for x, t in decls) else "data-alias"))
+                              cls="fnptr-alias" if any(has_fn(t) for k, x, t in ainfo) else
+                              "ptr-to-array-alias" if any(k == "U" and has_pa(t) for k, x, t in ainfo) else "data-alias"))
         # g++ as referee of the model's static semantics (a sample in the quick tier)
         for pr in (pairs[:40] if quick else pairs[:600]):
             for tag in ("p", "x"):
